@@ -1,16 +1,994 @@
+// Command c12 — correspondence check for property C12 (wire formats round-trip
+// deterministically; decoding validates like construction).
+//
+// It drives serde.MarshalCBOR / serde.UnmarshalCBOR[T] of the real library on (a) values built
+// through public constructors and short protocol runs (values.go), (b) mutated encodings of
+// them (mutate.go), (c) random generic CBOR items and damaged generic streams, and relates the
+// observations to the extracted Coq model (coq/model/Cbor.v, Schema.v) — one-sided, exactly as
+// DESIGN §5 C12 states:
+//
+//	(i)   the implementation never panics;
+//	(ii)  if it accepts, its own re-encoding of the decoded value satisfies the model's validity
+//	      predicate for that type, and decoding the re-encoding gives an Equal value that
+//	      re-encodes byte-identically;
+//	(iii) every stream the model classifies as a malformed container (indefinite length,
+//	      duplicate key, trailing bytes, over-deep nesting, reserved head, truncation, invalid
+//	      UTF-8, bignum tag, oversize), as carrying an unknown struct field, or as violating a
+//	      refusing constructor rule (rule number < 100) is rejected by the implementation;
+//	(iv)  for generated valid values: model bytes = library bytes, the model's decoder returns the
+//	      same item tree, and the value is valid for the model.
+//
+// "Implementation rejects => model rejects" is deliberately not required.
 package main
 
 import (
 	"fmt"
+	"math/big"
+	"os"
+	"sort"
+	"strconv"
+	"strings"
+	"time"
+
+	"github.com/bronlabs/bron-crypto/pkg/base/serde"
+	"github.com/fxamacker/cbor/v2"
 
 	"verif/harness/internal/vh"
 )
 
+const (
+	qK256 = "fffffffffffffffffffffffffffffffebaaedce6af48a03bbfd25e8cd0364141"
+	qP256 = "ffffffff00000000ffffffffffffffffbce6faada7179e84f3b9cac2fc632551"
+	qBLS  = "73eda753299d7d483339d80809a1d80553bda402fffe5bfeffffffff00000001"
+)
+
+// curveParams gives (scalar length, point length, group order) for the type's curve suffix;
+// ok=false: the model has no leaf description for it and the type is treated as generic.
+func curveParams(typ string) (slen, plen int, q string, ok bool) {
+	i := strings.IndexByte(typ, '-')
+	if i < 0 {
+		return 0, 0, "0", true // no curve-dependent leaves
+	}
+	switch typ[i+1:] {
+	case "k256":
+		return 32, 33, qK256, true
+	case "p256":
+		return 32, 33, qP256, true
+	case "bls12381", "bls12381g1":
+		return 32, 48, qBLS, true
+	}
+	return 0, 0, "0", false
+}
+
+// modelled reports whether the driver has a schema for the type name.
+func modelled(typ string) bool {
+	base := typ
+	if i := strings.IndexByte(typ, '-'); i >= 0 {
+		base = typ[:i]
+	}
+	switch base {
+	case "threshold", "unanimity", "cnf", "hierarchical", "boolexpr", "msp", "kwshare", "feldmanshare",
+		"feldmanlifted", "feldmanvv", "basepublic", "baseshard", "ecdsasig", "matrix", "sqmatrix", "mvmatrix",
+		"nat", "int", "natplus", "scalar", "point":
+		_, _, _, ok := curveParams(typ)
+		return ok
+	}
+	return false
+}
+
+func tLine(id int, typ string, sm bool, b []byte) string {
+	slen, plen, q, ok := curveParams(typ)
+	name := typ
+	if !ok || !modelled(typ) {
+		name, slen, plen, q = "generic", 0, 0, "0"
+	}
+	s := "0"
+	if sm {
+		s = "1"
+	}
+	return fmt.Sprintf("T %d %s %d %d %s %s %s", id, name, slen, plen, q, s, vh.Hex(b))
+}
+
+// ---- cases ----------------------------------------------------------------------------------
+
+type tcase struct {
+	class  string // "valid" | "mut" | "any-enc" | "any-mut"
+	sample *Sample
+	mut    mutation
+	stream []byte
+	sm     bool  // share-matches-public-data flag handed to the model for this stream
+	tree   *node // valid / any-enc: the generic tree of the value
+	// driver line indices (batch 1), -1 if absent
+	lE, lG, lT int
+	// observations
+	dec     DecResult
+	anyErr  bool
+	anyPan  string
+	lT2     int // batch 2: model verdict on the implementation's re-encoding
+	caseTxt string
+}
+
+func (c *tcase) canon() string {
+	if c.caseTxt != "" {
+		return c.caseTxt
+	}
+	switch c.class {
+	case "valid", "mut":
+		sm := "1"
+		if !c.sm {
+			sm = "0"
+		}
+		c.caseTxt = fmt.Sprintf("typed|%s|%s|%s|%s|%s|%s", c.sample.Type, vh.Hex(c.sample.Bytes), vh.Hex(c.stream), sm, c.mut.Kind, c.mut.Path)
+	default:
+		c.caseTxt = fmt.Sprintf("any|%s|%s", vh.Hex(c.stream), c.mut.Kind)
+	}
+	return c.caseTxt
+}
+
+// ---- generic values through the library's encoder ---------------------------------------------
+
+func toAny(x *node) any {
+	switch x.kind {
+	case 'u':
+		return x.n
+	case 'n':
+		if x.n < 1<<63 {
+			return int64(-1) - int64(x.n)
+		}
+		z := new(big.Int).SetUint64(x.n)
+		return z.Neg(z.Add(z, big.NewInt(1)))
+	case 'b':
+		return append([]byte{}, x.bs...)
+	case 't':
+		return string(x.bs)
+	case 'a':
+		out := make([]any, len(x.kids))
+		for i, k := range x.kids {
+			out[i] = toAny(k)
+		}
+		return out
+	case 'm':
+		out := map[any]any{}
+		for _, p := range x.pairs {
+			out[toAny(p[0])] = toAny(p[1])
+		}
+		return out
+	case 'g':
+		return cbor.Tag{Number: x.n, Content: toAny(x.kids[0])}
+	default:
+		switch x.n {
+		case 20:
+			return false
+		case 21:
+			return true
+		case 22:
+			return nil
+		}
+		return cbor.SimpleValue(x.n)
+	}
+}
+
+var intBoundaries = []uint64{0, 1, 23, 24, 255, 256, 65535, 65536, 1<<32 - 1, 1 << 32, 1<<63 - 1, 1 << 63, 1<<64 - 1}
+
+var textPool = []string{"", "a", "b", "aa", "threshold", "shareholders", "é", "日本", "abcdefghijklmnopqrstuvwx", "abcdefghijklmnopqrstuvw", strings.Repeat("k", 255), strings.Repeat("k", 256), "\U0001F600"}
+
+func genInt(r *vh.Rng) uint64 {
+	switch r.Intn(3) {
+	case 0:
+		return intBoundaries[r.Intn(len(intBoundaries))]
+	case 1:
+		return uint64(r.Intn(1000))
+	}
+	return r.Uint64() >> uint(r.Intn(64))
+}
+
+// genTree draws an item the model supports and the library can emit from a Go value: scalar map
+// keys (non-negative ints as uint64, negative as int64, text), tags other than 0..3.
+func genTree(r *vh.Rng, depth int) *node {
+	k := r.Intn(10)
+	if depth <= 0 && k >= 4 && k <= 6 {
+		k = r.Intn(4)
+	}
+	switch k {
+	case 0:
+		return &node{kind: 'u', n: genInt(r)}
+	case 1:
+		return &node{kind: 'n', n: genInt(r)}
+	case 2:
+		return &node{kind: 'b', bs: r.Bytes([]int{0, 1, 23, 24, 32, 255, 256}[r.Intn(7)])}
+	case 3:
+		return &node{kind: 't', bs: []byte(textPool[r.Intn(len(textPool))])}
+	case 4:
+		n := r.Intn(5)
+		if r.Chance(1, 20) {
+			n = 24 + r.Intn(3)
+		}
+		x := &node{kind: 'a'}
+		for i := 0; i < n; i++ {
+			x.kids = append(x.kids, genTree(r, depth-1))
+		}
+		return x
+	case 5, 6:
+		n := r.Intn(6)
+		if r.Chance(1, 20) {
+			n = 24 + r.Intn(3)
+		}
+		x := &node{kind: 'm'}
+		seen := map[string]bool{}
+		for i := 0; i < n; i++ {
+			var key *node
+			switch r.Intn(3) {
+			case 0:
+				key = &node{kind: 'u', n: genInt(r)}
+			case 1:
+				key = &node{kind: 'n', n: genInt(r) >> 1} // int64 range so that the Go key is hashable
+			default:
+				key = &node{kind: 't', bs: []byte(textPool[r.Intn(len(textPool))])}
+			}
+			ks := gshow(key)
+			if seen[ks] {
+				continue
+			}
+			seen[ks] = true
+			x.pairs = append(x.pairs, [2]*node{key, genTree(r, depth-1)})
+		}
+		return x
+	case 7:
+		return &node{kind: 'g', n: 4 + genInt(r)%(1<<62), kids: []*node{genTree(r, depth)}}
+	case 8:
+		return &node{kind: 's', n: []uint64{20, 21, 22, 23, 0, 16, 19, 32, 100, 255}[r.Intn(10)]}
+	default:
+		// a chain of arrays/maps up to the nesting limit
+		d := 1 + r.Intn(32)
+		x := &node{kind: 'u', n: uint64(d)}
+		for i := 0; i < d; i++ {
+			if r.Bool() {
+				x = &node{kind: 'a', kids: []*node{x}}
+			} else {
+				x = &node{kind: 'm', pairs: [][2]*node{{{kind: 'u', n: uint64(i)}, x}}}
+			}
+		}
+		return x
+	}
+}
+
+func hasTagOrOddSimple(x *node) bool {
+	switch x.kind {
+	case 'g':
+		return true
+	case 's':
+		return x.n == 23
+	case 'a':
+		for _, k := range x.kids {
+			if hasTagOrOddSimple(k) {
+				return true
+			}
+		}
+	case 'm':
+		for _, p := range x.pairs {
+			if hasTagOrOddSimple(p[0]) || hasTagOrOddSimple(p[1]) {
+				return true
+			}
+		}
+	}
+	return false
+}
+
+// ---- main -------------------------------------------------------------------------------------
+
 func main() {
 	a := vh.ParseArgs()
-	ss := buildSamples(a.Seed, a.Tier)
-	for _, s := range ss {
-		r := s.Dec(s.Bytes)
-		fmt.Printf("%-28s %-40s len=%d err=%v nil=%v eq=%v rt=%v %s facts=%s panic=%s same=%v\n", s.Type, s.Desc, len(s.Bytes), r.Err, r.IsNil, r.EqOrig, r.RtOK, r.RtNote, r.Facts, r.Panic, string(r.Re) == string(s.Bytes))
+	res := vh.NewResult("C12", a.Seed, a.Tier)
+	res.Rule = "valid: every value of values.go (public constructors, trusted-dealer and protocol runs) — library bytes vs model encoder/decoder/typed validity; " +
+		"mut: each tree operator of mutate.go (wire-form variants, container damage, one-rule value changes) and byte-level damage applied to each sample; " +
+		"any-enc/any-mut: random generic items through serde.MarshalCBOR[any] and damaged generic streams against serde.UnmarshalCBOR[any]. " +
+		"non-trivial = the stream passes the model's generic decoder (valid, mut) / is a distinct item (any)"
+	samples := buildSamples(a.Seed, a.Tier)
+	if a.Driver == "" {
+		// no model driver given: list the samples and their implementation-side round trip
+		for _, s := range samples {
+			r := s.Dec(s.Bytes)
+			fmt.Printf("%-28s %-40s len=%d err=%v nil=%v eq=%v rt=%v %s facts=%s panic=%s same=%v\n", s.Type, s.Desc, len(s.Bytes), r.Err, r.IsNil, r.EqOrig, r.RtOK, r.RtNote, r.Facts, r.Panic, string(r.Re) == string(s.Bytes))
+		}
+		return
 	}
+	if len(samples) == 0 {
+		res.Mismatch(vh.Mismatch{ID: "setup", Kind: "corr", Key: "no-samples", Detail: "buildSamples returned nothing", What: "C12 correspondence (values)"})
+		res.Write(a.Out)
+		os.Exit(1)
+	}
+	var cases []*tcase
+	if a.Replay != "" {
+		c, err := replayCase(a.Replay, samples)
+		if err != nil {
+			res.Mismatch(vh.Mismatch{ID: "replay", Kind: "corr", Key: "bad-replay-file", Detail: err.Error(), What: "replay"})
+			res.Write(a.Out)
+			os.Exit(1)
+		}
+		cases = []*tcase{c}
+	} else {
+		cases = genCases(a, samples)
+	}
+	evaluate(a, res, cases)
+	res.Write(a.Out)
+	if len(res.Mismatches) > 0 {
+		os.Exit(1)
+	}
+}
+
+func genCases(a vh.Args, samples []Sample) []*tcase {
+	perOp, nByte, nAny, nAnyMut := 2, 10, 400, 1500
+	if a.Tier == "thorough" {
+		perOp, nByte, nAny, nAnyMut = 8, 40, 3000, 12000
+	}
+	if a.Search {
+		perOp, nByte, nAny, nAnyMut = perOp*4, nByte*4, nAny*3, nAnyMut*4
+	}
+	var cases []*tcase
+	mutated := map[string]int{}
+	fixedDone := map[string]bool{}
+	maxExpensive := 1
+	if a.Tier == "thorough" || a.Search {
+		maxExpensive = 4
+	}
+	for i := range samples {
+		s := &samples[i]
+		tree, err := gdecode(s.Bytes)
+		c := &tcase{class: "valid", sample: s, stream: s.Bytes, sm: true, tree: tree, mut: mutation{Kind: "none"}}
+		if err != nil {
+			c.tree = nil
+		}
+		cases = append(cases, c)
+		if tree == nil {
+			continue
+		}
+		// the smallest streams, once per type: empty map / array / strings, null, undefined, 0, nothing
+		if !fixedDone[s.Type] {
+			fixedDone[s.Type] = true
+			for _, h := range []string{"a0", "f6", "f7", "80", "00", "40", "60", "", "a1f6f6", "a10000", "a16000", "81a0", "d913bda0", "f4"} {
+				b := vh.UnHex(h)
+				cases = append(cases, &tcase{class: "mut", sample: s, mut: mutation{Kind: "fixed-stream", Path: h, Bytes: b}, stream: b, sm: true})
+			}
+		}
+		// types whose constructor does group arithmetic per decode: mutate only the first few samples
+		if expensive(s.Type) {
+			mutated[s.Type]++
+			if mutated[s.Type] > maxExpensive {
+				continue
+			}
+		}
+		r := vh.NewRng(a.Seed, "C12", "mut/"+s.Type, i)
+		heavy := len(s.Bytes) > 4000
+		// every small unsigned value in turn: 0 and 1 are the boundary of most constructor rules
+		{
+			probe := tree.clone()
+			refs := collect(&probe)
+			cnt := 0
+			for ri, x := range refs {
+				if x.x.kind != 'u' || x.role == 'k' || cnt >= 24 {
+					continue
+				}
+				cnt++
+				for _, v := range []uint64{0, 1} {
+					if x.x.n == v {
+						continue
+					}
+					root := tree.clone()
+					rr := collect(&root)
+					rr[ri].x.n = v
+					m := mutation{Kind: "uint-boundary", Path: rr[ri].path, Bytes: gencode(root)}
+					cases = append(cases, &tcase{class: "mut", sample: s, mut: m, stream: m.Bytes, sm: true})
+				}
+			}
+		}
+		// every field near the top in turn: absent, null (pointer fields left nil by the decoder)
+		{
+			probe := tree.clone()
+			refs := collect(&probe)
+			cnt := 0
+			for ri, x := range refs {
+				if x.role != 'v' || strings.Count(x.path, "/") > 3 || cnt >= 16 {
+					continue
+				}
+				cnt++
+				root := tree.clone()
+				rr := collect(&root)
+				rr[ri].set(&node{kind: 's', n: 22})
+				m := mutation{Kind: "field-null", Path: x.path, Bytes: gencode(root)}
+				cases = append(cases, &tcase{class: "mut", sample: s, mut: m, stream: m.Bytes, sm: true})
+				root = tree.clone()
+				rr = collect(&root)
+				// drop the pair whose value is rr[ri]
+				for _, y := range rr {
+					if y.x.kind != 'm' {
+						continue
+					}
+					for pi, pr := range y.x.pairs {
+						if pr[1] == rr[ri].x {
+							y.x.pairs = append(y.x.pairs[:pi:pi], y.x.pairs[pi+1:]...)
+							m := mutation{Kind: "field-drop", Path: x.path, Bytes: gencode(root)}
+							cases = append(cases, &tcase{class: "mut", sample: s, mut: m, stream: m.Bytes, sm: true})
+							break
+						}
+					}
+				}
+			}
+		}
+		if strings.HasPrefix(s.Type, "baseshard") {
+			// another (valid) private share value under unchanged public data
+			for k := 0; k < 3; k++ {
+				root := tree.clone()
+				refs := collect(&root)
+				if x, ok := pickRef(r, refs, func(x ref) bool { return x.x.kind == 'b' && strings.HasPrefix(x.path, "/share/value") }); ok {
+					x.x.bs[len(x.x.bs)-1-k] ^= 1
+					m := mutation{Kind: "bytes-tweak", Path: x.path, Bytes: gencode(root)}
+					cases = append(cases, &tcase{class: "mut", sample: s, mut: m, stream: m.Bytes, sm: false})
+				}
+			}
+		}
+		// a subtree taken from another value of the same type (field swapped across values)
+		for k := 0; k < perOp; k++ {
+			var others []int
+			for j := range samples {
+				if j != i && samples[j].Type == s.Type {
+					others = append(others, j)
+				}
+			}
+			if len(others) == 0 {
+				break
+			}
+			ot, err := gdecode(samples[others[r.Intn(len(others))]].Bytes)
+			if err != nil {
+				break
+			}
+			root := tree.clone()
+			refs := collect(&root)
+			orefs := collect(&ot)
+			x, ok := pickRef(r, refs, func(x ref) bool { return x.role == 'v' })
+			if !ok {
+				break
+			}
+			for _, o := range orefs {
+				if o.path == x.path && o.role == 'v' && gshow(o.x) != gshow(x.x) {
+					x.set(o.x)
+					m := mutation{Kind: "splice-from-sibling", Path: x.path, Bytes: gencode(root)}
+					cases = append(cases, &tcase{class: "mut", sample: s, mut: m, stream: m.Bytes, sm: true})
+					break
+				}
+			}
+		}
+		for op := range treeOps {
+			n := perOp
+			if heavy {
+				n = 1
+			} else if expensive(s.Type) {
+				n = perOp * 2
+			}
+			for k := 0; k < n; k++ {
+				m, ok := treeMutation(r, tree, op)
+				if !ok {
+					continue
+				}
+				sm := true
+				if strings.HasPrefix(s.Type, "baseshard") && strings.HasPrefix(m.Path, "/share/value") && strings.HasPrefix(m.Kind, "bytes-") {
+					sm = false // a different private share cannot match the unchanged public data
+				}
+				cases = append(cases, &tcase{class: "mut", sample: s, mut: m, stream: m.Bytes, sm: sm})
+			}
+		}
+		nb := nByte
+		if heavy {
+			nb = 3
+		}
+		for k := 0; k < nb; k++ {
+			m := byteMutation(r, s.Bytes)
+			cases = append(cases, &tcase{class: "mut", sample: s, mut: m, stream: m.Bytes, sm: true})
+		}
+	}
+	// generic items
+	for i := 0; i < nAny; i++ {
+		r := vh.NewRng(a.Seed, "C12", "any", i)
+		t := genTree(r, 4)
+		cases = append(cases, &tcase{class: "any-enc", tree: t, mut: mutation{Kind: "none"}})
+	}
+	for i := 0; i < nAnyMut; i++ {
+		r := vh.NewRng(a.Seed, "C12", "anymut", i)
+		t := genTree(r, 3)
+		var m mutation
+		if r.Chance(1, 3) {
+			m = byteMutation(r, gencodeSorted(t))
+		} else {
+			var ok bool
+			m, ok = treeMutation(r, t, r.Intn(len(treeOps)))
+			if !ok {
+				m = byteMutation(r, gencodeSorted(t))
+			}
+		}
+		cases = append(cases, &tcase{class: "any-mut", mut: m, stream: m.Bytes})
+	}
+	return cases
+}
+
+func expensive(typ string) bool {
+	for _, p := range []string{"baseshard", "basepublic", "dkls23shard", "schnorrshard", "feldmanvv-bls", "lindell17"} {
+		if strings.HasPrefix(typ, p) {
+			return true
+		}
+	}
+	return false
+}
+
+// gencodeSorted: the tree's encoding with map keys in the deterministic order (harness side:
+// plain bytewise sort of the encoded keys), used as the starting point of byte-level damage.
+func gencodeSorted(x *node) []byte {
+	y := x.clone()
+	var fix func(z *node)
+	fix = func(z *node) {
+		for _, k := range z.kids {
+			fix(k)
+		}
+		for _, p := range z.pairs {
+			fix(p[0])
+			fix(p[1])
+		}
+		sort.SliceStable(z.pairs, func(i, j int) bool {
+			return string(gencode(z.pairs[i][0])) < string(gencode(z.pairs[j][0]))
+		})
+	}
+	fix(y)
+	return gencode(y)
+}
+
+func evaluate(a vh.Args, res *vh.Result, cases []*tcase) {
+	// ---- batch 1: model on every case
+	var lines []string
+	add := func(s string) int { lines = append(lines, s); return len(lines) - 1 }
+	for _, c := range cases {
+		c.lE, c.lG, c.lT, c.lT2 = -1, -1, -1, -1
+		switch c.class {
+		case "valid":
+			if c.tree != nil {
+				c.lE = add(fmt.Sprintf("E %d %s", len(lines), gshow(c.tree)))
+			}
+			c.lG = add(fmt.Sprintf("G %d %s", len(lines), vh.Hex(c.stream)))
+			c.lT = add(tLine(len(lines), c.sample.Type, c.sm, c.stream))
+		case "mut":
+			c.lT = add(tLine(len(lines), c.sample.Type, c.sm, c.stream))
+		case "any-enc":
+			c.lE = add(fmt.Sprintf("E %d %s", len(lines), gshow(c.tree)))
+		case "any-mut":
+			c.lG = add(fmt.Sprintf("G %d %s", len(lines), vh.Hex(c.stream)))
+		}
+	}
+	out, err := vh.Driver(a.Driver, lines)
+	if err != nil {
+		res.Mismatch(vh.Mismatch{ID: "driver", Kind: "corr", Key: "driver-failed", Detail: err.Error(), What: "model driver (batch 1)"})
+		return
+	}
+	field := func(i, k int) string {
+		f := strings.Split(out[i], " ")
+		if k < len(f) {
+			return f[k]
+		}
+		return ""
+	}
+	// ---- implementation
+	spent := map[string]time.Duration{}
+	defer func() {
+		if os.Getenv("C12_TIMING") != "" {
+			for k, v := range spent {
+				fmt.Fprintf(os.Stderr, "%8.2fs %s\n", v.Seconds(), k)
+			}
+		}
+	}()
+	var lines2 []string
+	for _, c := range cases {
+		switch c.class {
+		case "valid", "mut":
+			t0 := time.Now()
+			c.dec = c.sample.Dec(c.stream)
+			spent[c.sample.Type] += time.Since(t0)
+			if c.dec.Panic == "" && !c.dec.Err && !c.dec.IsNil && !c.dec.ReErr && c.class == "mut" {
+				sm := !strings.Contains(c.dec.Facts, "sharematch=0")
+				lines2 = append(lines2, tLine(len(lines2), c.sample.Type, sm, c.dec.Re))
+				c.lT2 = len(lines2) - 1
+			}
+		case "any-enc":
+			v := toAny(c.tree)
+			var b []byte
+			var e error
+			c.anyPan = vh.Safely(func() { b, e = serde.MarshalCBOR(v) })
+			c.anyErr = e != nil
+			c.stream = b
+		case "any-mut":
+			var v any
+			var e error
+			c.anyPan = vh.Safely(func() { v, e = serde.UnmarshalCBOR[any](c.stream) })
+			_ = v
+			c.anyErr = e != nil
+		}
+	}
+	var out2 []string
+	if len(lines2) > 0 {
+		out2, err = vh.Driver(a.Driver, lines2)
+		if err != nil {
+			res.Mismatch(vh.Mismatch{ID: "driver", Kind: "corr", Key: "driver-failed", Detail: err.Error(), What: "model driver (batch 2)"})
+			return
+		}
+	}
+	// any-enc: the model decodes the library's bytes (third, small batch)
+	var lines3 []string
+	idx3 := map[*tcase]int{}
+	for _, c := range cases {
+		if c.class == "any-enc" && !c.anyErr && c.anyPan == "" {
+			idx3[c] = len(lines3)
+			lines3 = append(lines3, fmt.Sprintf("G %d %s", len(lines3), vh.Hex(c.stream)))
+		}
+	}
+	var out3 []string
+	if len(lines3) > 0 {
+		out3, err = vh.Driver(a.Driver, lines3)
+		if err != nil {
+			res.Mismatch(vh.Mismatch{ID: "driver", Kind: "corr", Key: "driver-failed", Detail: err.Error(), What: "model driver (batch 3)"})
+			return
+		}
+	}
+
+	// ---- relation
+	for i, c := range cases {
+		id := strconv.Itoa(i)
+		mm := func(kind, key, detail, what string, propfail bool) {
+			res.Mismatch(vh.Mismatch{ID: id, Kind: kind, Key: key, Detail: detail, Case: c.canon(), PropFail: propfail, What: what})
+		}
+		switch c.class {
+		case "valid":
+			typ := c.sample.Type
+			res.Count("valid:"+typ, c.canon(), true)
+			d := c.dec
+			switch {
+			case d.Panic != "":
+				mm("prop", typ+"/valid/panic", "decoding the library's own encoding panics: "+d.Panic, "C12 (i) never panics", true)
+				continue
+			case d.Err:
+				mm("prop", typ+"/valid/rejected", "decode(encode x) is rejected", "C12 round trip (decode_encode)", true)
+				continue
+			case d.IsNil:
+				mm("prop", typ+"/valid/nil", "decode(encode x) is nil", "C12 round trip (decode_encode)", true)
+				continue
+			case !d.EqOrig:
+				mm("prop", typ+"/valid/not-equal", "decode(encode x) is not Equal to x", "C12 round trip (decode_encode)", true)
+				continue
+			case d.ReErr || string(d.Re) != string(c.stream):
+				mm("prop", typ+"/reencode-not-deterministic", "encode(decode(encode x)) differs from encode x: "+vh.Hex(d.Re), "C12 deterministic encoding (encode_injective / encode_map_order_independent)", true)
+				continue
+			case !d.RtOK:
+				mm("prop", typ+rtKey("/valid", d.RtNote), d.RtNote, "C12 round trip", true)
+				continue
+			}
+			if c.tree == nil {
+				mm("corr", typ+"/valid/outside-model", "the library's encoding is not a definite-length float-free item", "C12 (iv) model bytes = library bytes", false)
+				continue
+			}
+			if got := field(c.lE, 2); got != vh.Hex(c.stream) {
+				mm("corr", typ+"/valid/model-bytes-differ", "model encode(tree)="+got+" within="+field(c.lE, 3), "C12 (iv) model bytes = library bytes (encoder model)", false)
+				continue
+			}
+			if field(c.lE, 3) != "1" {
+				mm("corr", typ+"/valid/not-within-limits", "the item is not within the model's limits / well-formedness", "C12 (iv) decode_encode hypothesis", false)
+			}
+			if field(c.lG, 2) != "ok" || field(c.lG, 3) != gshow(c.tree) || field(c.lG, 4) != vh.Hex(c.stream) {
+				mm("corr", typ+"/valid/model-decode-differs", "model decode: "+out[c.lG], "C12 (iv) model decoder accepts library bytes and returns the same tree", false)
+				continue
+			}
+			if modelled(typ) {
+				if field(c.lT, 2) != "valid" || field(c.lT, 3) != vh.Hex(c.stream) {
+					mm("corr", typ+"/valid/model-says-"+field(c.lT, 2)+field(c.lT, 3), "model typed verdict on a constructed value: "+out[c.lT], "C12 (iv) constructed values satisfy the model's validity predicate (typed_decode_valid)", false)
+				}
+			}
+		case "mut":
+			typ := c.sample.Type
+			verdict := field(c.lT, 2)
+			arg := field(c.lT, 3)
+			nontrivial := verdict != "malformed" && verdict != "unsupported"
+			cls := "mut:" + c.mut.Kind + ":" + verdict
+			if verdict == "invalid" || verdict == "malformed" {
+				cls += "-" + arg
+			}
+			d := c.dec
+			switch {
+			case d.Panic != "":
+				cls += "=panic"
+			case d.Err:
+				cls += "=rejected"
+			case d.IsNil:
+				cls += "=nil"
+			default:
+				cls += "=accepted"
+			}
+			res.Count(cls, c.canon(), nontrivial)
+			keyBase := typ + "/" + c.mut.Kind
+			if d.Panic != "" {
+				mm("prop", typ+"/panic", "UnmarshalCBOR panics on a "+c.mut.Kind+" mutation at "+c.mut.Path+": "+d.Panic+" (model verdict: "+verdict+" "+arg+")", "C12 (i) decoding never panics (decode total)", true)
+				continue
+			}
+			accepted := !d.Err && !d.IsNil
+			// (iii)
+			if accepted {
+				switch verdict {
+				case "malformed":
+					mm("corr", keyBase+"/malformed-"+arg+"-accepted", "the model's strict decoder refuses the container ("+arg+") but the implementation accepts it", "C12 (iii) decode_rejects_malformed", true)
+					continue
+				case "unknown-field":
+					mm("corr", keyBase+"/unknown-field-accepted", "a struct carries a key that names no field, the implementation accepts it", "C12 (iii) unknown_field_rejected", true)
+					continue
+				case "invalid":
+					if r, _ := strconv.Atoi(arg); r < 100 {
+						mm("corr", keyBase+"/rule"+arg+"-accepted", "the stream violates constructor rule "+arg+" ("+ruleText(r)+") but the implementation accepts it; re-encoding "+vh.Hex(d.Re), "C12 (iii) typed_decode_valid: decoding validates like construction", true)
+						continue
+					}
+				}
+			}
+			// (ii)
+			if accepted {
+				if d.ReErr {
+					mm("prop", keyBase+"/accepted-not-encodable", "the accepted value cannot be re-encoded", "C12 (ii) round trip of accepted values", true)
+					continue
+				}
+				if !d.RtOK {
+					mm("prop", typ+rtKey("/"+c.mut.Kind, d.RtNote), d.RtNote+"; re-encoding "+vh.Hex(d.Re), "C12 (ii) round trip of accepted values", true)
+					continue
+				}
+				if c.lT2 >= 0 && modelled(typ) {
+					f := strings.Split(out2[c.lT2], " ")
+					v2, a2 := f[2], ""
+					if len(f) > 3 {
+						a2 = f[3]
+					}
+					if v2 != "valid" {
+						mm("corr", keyBase+"/accepted-"+v2+a2, "the implementation accepted the stream and re-encodes the value as "+vh.Hex(d.Re)+", which the model classifies as "+v2+" "+a2+" ("+ruleTextS(a2)+")", "C12 (ii) typed_decode_valid: an accepted value satisfies the constructor rules", true)
+						continue
+					}
+					if a2 != vh.Hex(d.Re) {
+						mm("corr", keyBase+"/reencoding-not-canonical", "model canonical bytes "+a2+" differ from the library's re-encoding "+vh.Hex(d.Re), "C12 (iv) model bytes = library bytes", false)
+					}
+				}
+			}
+		case "any-enc":
+			tr := gshow(c.tree)
+			res.Count("any-enc", tr, true)
+			if c.anyPan != "" || c.anyErr {
+				// the library refuses to encode this Go value: not a decoding matter; note only
+				res.Distribution["any-enc:library-refused"]++
+				continue
+			}
+			if got := field(c.lE, 2); got != vh.Hex(c.stream) {
+				c.caseTxt = "anyenc|" + tr
+				// property predicate on the implementation: does its own decoder accept its bytes?
+				_, e := serde.UnmarshalCBOR[any](c.stream)
+				mm("corr", "any/encode-differs", "library "+vh.Hex(c.stream)+" model "+got, "C12 (iv) model bytes = library bytes (deterministic encoder: shortest heads, bytewise key order)", e != nil)
+				continue
+			}
+			within := field(c.lE, 3) == "1"
+			var e error
+			p := vh.Safely(func() { _, e = serde.UnmarshalCBOR[any](c.stream) })
+			c.caseTxt = "anyenc|" + tr
+			if p != "" {
+				mm("prop", "any/panic", "decoding the library's own encoding panics: "+p, "C12 (i)", true)
+				continue
+			}
+			if j, ok := idx3[c]; ok {
+				f := strings.Split(out3[j], " ")
+				if within {
+					want := gshow(mustDecode(c.stream))
+					if len(f) < 5 || f[2] != "ok" || f[3] != want || f[4] != vh.Hex(c.stream) {
+						mm("corr", "any/model-decode-differs", "model on library bytes "+vh.Hex(c.stream)+": "+out3[j], "C12 (iv) decode_encode", false)
+						continue
+					}
+				} else if len(f) >= 5 && f[2] == "err" && f[4] == "1" && e == nil {
+					mm("corr", "any/malformed-"+f[3]+"-accepted", "the model refuses "+vh.Hex(c.stream)+" ("+f[3]+") but serde.UnmarshalCBOR[any] accepts it", "C12 (iii) decode_rejects_malformed", true)
+					continue
+				}
+			}
+			if e != nil && within && !hasByteKey(c.tree) {
+				mm("prop", "any/valid-rejected", "the library's decoder rejects the library's encoding "+vh.Hex(c.stream), "C12 round trip", true)
+			}
+		case "any-mut":
+			verdict := field(c.lG, 2)
+			cls := "any-mut:" + c.mut.Kind + ":" + verdict
+			if verdict == "err" {
+				cls += "-" + field(c.lG, 3)
+			}
+			res.Count(cls, c.canon(), verdict == "ok")
+			if c.anyPan != "" {
+				mm("prop", "any/"+c.mut.Kind+"/panic", "UnmarshalCBOR[any] panics: "+c.anyPan, "C12 (i)", true)
+				continue
+			}
+			if verdict == "err" && field(c.lG, 4) == "1" && !c.anyErr {
+				mm("corr", "any/"+c.mut.Kind+"/malformed-"+field(c.lG, 3)+"-accepted", "the model's strict decoder refuses the container ("+field(c.lG, 3)+") but serde.UnmarshalCBOR[any] accepts it", "C12 (iii) decode_rejects_malformed", true)
+			}
+		}
+	}
+	res.Note("samples: %d values of %d types; model-covered typed schemas: %d types", countClass(cases, "valid"), countTypes(cases, false), countTypes(cases, true))
+}
+
+// rtKey: all byte-instability reports of one type share a key (it is one defect of the type's
+// encoder, whatever stream exposed it); other round-trip failures are keyed by the operator.
+func rtKey(prefix, note string) string {
+	if strings.Contains(note, "byte-identical") {
+		return "/reencode-not-deterministic"
+	}
+	return prefix + "/accepted-not-roundtrip"
+}
+
+func mustDecode(b []byte) *node {
+	x, err := gdecode(b)
+	if err != nil {
+		return &node{kind: 's', n: 255}
+	}
+	return x
+}
+
+func hasByteKey(x *node) bool {
+	for _, k := range x.kids {
+		if hasByteKey(k) {
+			return true
+		}
+	}
+	for _, p := range x.pairs {
+		if p[0].kind == 'b' || hasByteKey(p[0]) || hasByteKey(p[1]) {
+			return true
+		}
+	}
+	return false
+}
+
+func countClass(cs []*tcase, class string) int {
+	n := 0
+	for _, c := range cs {
+		if c.class == class {
+			n++
+		}
+	}
+	return n
+}
+
+func countTypes(cs []*tcase, onlyModelled bool) int {
+	m := map[string]bool{}
+	for _, c := range cs {
+		if c.class == "valid" && (!onlyModelled || modelled(c.sample.Type)) {
+			m[c.sample.Type] = true
+		}
+	}
+	return len(m)
+}
+
+func ruleTextS(s string) string {
+	r, err := strconv.Atoi(s)
+	if err != nil {
+		return ""
+	}
+	return ruleText(r)
+}
+
+// ruleText names the rule numbers of coq/model/Schema.v.
+func ruleText(r int) string {
+	switch r {
+	case 1:
+		return "threshold >= 2"
+	case 2:
+		return "threshold <= number of shareholders"
+	case 3:
+		return "shareholder ID 0"
+	case 4:
+		return "unanimity needs >= 2 shareholders"
+	case 5:
+		return "CNF needs at least one set"
+	case 6:
+		return "CNF set empty"
+	case 7:
+		return "CNF needs >= 2 shareholders"
+	case 8:
+		return "hierarchical needs a level"
+	case 9:
+		return "level thresholds positive and strictly increasing"
+	case 10:
+		return "level without parties"
+	case 11:
+		return "levels not disjoint"
+	case 12:
+		return "cumulative parties < threshold"
+	case 13:
+		return "unknown node kind"
+	case 14:
+		return "gate threshold not in 1..children"
+	case 15:
+		return "attribute node with ID 0"
+	case 16:
+		return "duplicate attribute children under one gate"
+	case 17:
+		return "shareholder map differs from the tree's leaves"
+	case 18:
+		return "matrix dimensions not positive"
+	case 19:
+		return "matrix data length != rows*cols"
+	case 20:
+		return "MSP row labels not exactly 0..rows-1"
+	case 21:
+		return "MSP row labelled with holder 0"
+	case 22:
+		return "share ID 0"
+	case 23:
+		return "share value empty"
+	case 24:
+		return "verification vector not a column vector"
+	case 25:
+		return "verification vector length != MSP columns"
+	case 26:
+		return "share ID is not an MSP holder"
+	case 27:
+		return "private share does not match the public data"
+	case 28:
+		return "ECDSA r or s zero"
+	case 29:
+		return "ECDSA v outside 0..3"
+	case 30:
+		return "scalar byte length"
+	case 31:
+		return "point byte length"
+	case 32:
+		return "NatPlus zero"
+	case 101:
+		return "CNF sets form an antichain"
+	case 102:
+		return "CNF shareholders = union of the sets"
+	case 103:
+		return "level parties distinct"
+	case 105:
+		return "scalar canonical (< q)"
+	}
+	return "rule " + strconv.Itoa(r)
+}
+
+// replayCase rebuilds one case from a replay file written by bin/check (line "case: ...").
+func replayCase(path string, samples []Sample) (*tcase, error) {
+	b, err := os.ReadFile(path)
+	if err != nil {
+		return nil, err
+	}
+	var txt string
+	for _, l := range strings.Split(string(b), "\n") {
+		if strings.HasPrefix(l, "case: ") {
+			txt = strings.TrimPrefix(l, "case: ")
+		}
+	}
+	f := strings.Split(txt, "|")
+	switch {
+	case len(f) >= 6 && f[0] == "typed":
+		var s *Sample
+		for i := range samples {
+			if samples[i].Type == f[1] && (s == nil || vh.Hex(samples[i].Bytes) == f[2]) {
+				s = &samples[i]
+			}
+		}
+		if s == nil {
+			return nil, fmt.Errorf("no sample of type %s", f[1])
+		}
+		stream := vh.UnHex(f[3])
+		c := &tcase{class: "mut", sample: s, stream: stream, sm: f[4] == "1", mut: mutation{Kind: f[5], Path: strings.Join(f[6:], "|"), Bytes: stream}}
+		if f[5] == "none" {
+			c.class = "valid"
+			c.tree, _ = gdecode(stream)
+		}
+		return c, nil
+	case len(f) >= 2 && f[0] == "any":
+		kind := "replay"
+		if len(f) > 2 {
+			kind = f[2]
+		}
+		return &tcase{class: "any-mut", stream: vh.UnHex(f[1]), mut: mutation{Kind: kind}}, nil
+	case len(f) == 2 && f[0] == "anyenc":
+		// tree text is only re-read by the model; rebuild through the harness parser is not needed:
+		return nil, fmt.Errorf("anyenc replay: run the check with the same seed (case %s)", f[1])
+	}
+	return nil, fmt.Errorf("unrecognised case line %q", txt)
 }
